@@ -507,6 +507,24 @@ class _ShortcutsAsManager(object):
         return getattr(sc, name)
 
 
+def _same_meaning(f1, f2, rnd, n=24):
+    """True / False: the two formulas have / do not have the same value under n sampled interpretations of their
+    symbols; None: not judged (sorts the sampler does not cover, no semantics)."""
+    from vf.refsem import Evaluator, reffv, reftype, Unconstrained, NoSemantics
+    try:
+        b1, b2 = pys.decode(f1), pys.decode(f2)
+        if reftype(b1) != reftype(b2):
+            return False
+        syms = sorted(reffv(b1) | reffv(b2), key=repr)
+        for _ in range(n):
+            I = {nm: sample_value(ty, rnd) for (nm, ty) in syms}
+            if Evaluator(I, {}).eval(b1) != Evaluator(I, {}).eval(b2):
+                return False
+        return True
+    except (Unconstrained, NoSemantics, ValueError, KeyError, TypeError):
+        return None
+
+
 def shard_shortcuts(shard, nshards):
     """Every constructor application of the C03 table (each public constructor x sort tuples x argument forms) made
     through the function of the same name in pysmt.shortcuts, while the environment is the current one: the very same
@@ -546,6 +564,17 @@ def shard_shortcuts(shard, nshards):
             run.case(key=("shortcut", label), nontrivial=outs[0][0] == "ok")
             run.cls("shortcut-vs-manager")
             same = (outs[0][0] == outs[1][0]) and (outs[0][0] == "raised" or outs[0][1] is outs[1][1])
+            if not same and outs[0][0] == "raised":
+                # the manager rejects what the shortcut accepts: an ill-typed formula would be C03's business
+                run.cls("shortcut-accepts-what-the-manager-rejects")
+                continue
+            if not same and outs[0][0] == outs[1][0] == "ok":
+                # another object: the property asks for the same MEANING - judged by evaluation
+                import random as _random
+                verdict = _same_meaning(outs[0][1], outs[1][1], _random.Random(idx))
+                if verdict is not False:
+                    run.cls("shortcut:other-object-same-meaning" if verdict else "shortcut:other-object-not-judged")
+                    continue
             if not same:
                 run.fail({"subcheck": "shortcut:differs-from-manager", "form": "shortcuts." + name},
                          {"form": "shortcuts." + name, "types": list(ts), "params": [str(p) for p in ps], "args": form},
